@@ -49,6 +49,8 @@ const (
 	USDC  = "uusdc"
 	USDN  = "uusdn"
 	EURE  = "ueure"
+	// UP differs from USDC in letter case only (bank denominations are case-sensitive)
+	UP = "uUSDC"
 	BIG   = "ubig"
 	STAKE = "stake"
 )
@@ -249,6 +251,7 @@ func (w *World) initChain() (err error) {
 			)...)
 			if n == "alice" {
 				coins = coins.Add(sdk.NewCoins(
+					sdk.NewCoin(UP, sdkmath.NewInt(1_000_000_000_000_000)),
 					sdk.NewCoin(BIG, MaxUint256()),
 					sdk.NewCoin(USDC, sdkmath.NewInt(9_000_000_000_000_000)),
 					sdk.NewCoin(USDN, sdkmath.NewInt(9_000_000_000_000_000)),
